@@ -94,6 +94,7 @@ pub enum BadTask {
     InvalidArgs,
     CwdEscape,
     CwdMissing,
+    CwdAbsolute,
 }
 
 #[derive(Clone, Debug, Serialize, Deserialize, PartialEq)]
@@ -186,7 +187,7 @@ pub fn generate(run_seed: u64, tier: Tier) -> Scenario {
         Mode::Task {
             cancel_after_ms: if rng.chance(1, 4) { Some(rng.below(60)) } else { None },
             limits_in_args: true,
-            bad: if rng.chance(1, 12) { Some(match rng.below(3) { 0 => BadTask::InvalidArgs, 1 => BadTask::CwdEscape, _ => BadTask::CwdMissing }) } else { None },
+            bad: if rng.chance(1, 12) { Some(match rng.below(4) { 0 => BadTask::InvalidArgs, 1 => BadTask::CwdEscape, 2 => BadTask::CwdAbsolute, _ => BadTask::CwdMissing }) } else { None },
         }
     };
     let page_sizes = (0..rng.range(1, 4)).map(|_| *rng.pick(&[4usize, 5, 7, 16, 64, 100, 1000, 4096, 8192, 10_000, 100_000])).collect();
@@ -473,6 +474,7 @@ fn run_task(sc: &Scenario, env: &Env, stats: &mut RunStats) -> Result<Option<Vio
         Some(BadTask::InvalidArgs) => args = json!({"cmd": "echo hi"}),
         Some(BadTask::CwdEscape) => args["cwd"] = json!("../outside"),
         Some(BadTask::CwdMissing) => args["cwd"] = json!("no/such/dir"),
+        Some(BadTask::CwdAbsolute) => args["cwd"] = json!("/tmp"),
         None => {}
     }
     let (st, v) = engine.call_json("POST", "/tasks", Some(json!({"tool": "bash", "args": args})))?;
@@ -794,7 +796,7 @@ impl Check for C17 {
         4
     }
     fn rule(&self) -> String {
-        "one run = one seeded scenario: preview limit from {0,1,2,3,5,16,64,100,1000,8191,8192,8193,20000,512Ki}, artifact cap from {0,1,10,100,5000,8192,10000,30000,1Mi,16Mi}, a stdout and a stderr payload (ASCII lines with CR/LF, multi-byte text, arbitrary binary) of a length drawn around 0, the preview limit, 8192, the cap, 3x8192 or up to 45 kB (200 kB thorough), cut into up to 13 segments per stream (1-7 bytes, up to 200 bytes, exactly 8192, 4-12 kB, the rest) that a real bash emits with `cat` in a seeded stdout/stderr interleaving with pauses of 0/3/8/20 ms; in 1 of 10 scenarios the last bytes of stdout are written 150/600/1400 ms later by a background descendant that outlives the shell and keeps the pipe open (the terminal frame must still come after all output and account for it); exit code from {0,1,3,127}, page sizes from {4..100000}, slow disk 0/5/25/60 ms per artifact-store write. Half the scenarios run the foreground shell tool through the real tool runner configured with those limits: bytes_total, preview (text of a prefix within the limit, as long as the limit allows), truncated flags, artifact present whenever output exceeds the preview and the cap is non-zero, stored bytes = prefix of the payload up to the cap read the moment the tool returned, id = sha256 of the stored bytes = file name, and artifact_fetch page sequences (offset advanced by the reported byte count) must terminate, respect the page size and total, and for single-line valid UTF-8 reproduce the stored text exactly. The other half create a background task through POST /tasks with the limits in its arguments (1 in 4 cancelled 0-60 ms after creation, 1 in 12 unstartable: invalid args, cwd escaping the workspace, missing cwd): the task stream opens with the spawn frame at seq 0, running at most once, exactly one terminal status which is the last frame, cancel_requested < cancelled < terminal cancelled status and never a cancelled status without a recorded request, unstartable tasks fail, the status endpoint agrees with the terminal frame; for exited tasks the terminal frame's bytes_total/bytes_stored/truncated equal the payload's, the log file read the moment the terminal frame is visible (and again 30 ms later) equals the payload prefix up to the cap, output frames reference consecutive non-overlapping ranges covering the stored bytes with an inline chunk that is a prefix of its range within the limit, and GET /tasks/{id}/output page sequences reproduce valid UTF-8 output exactly; for cancelled tasks the stored bytes are a prefix. distinct = hash of the scenario; non-trivial = at least one payload byte".into()
+        "one run = one seeded scenario: preview limit from {0,1,2,3,5,16,64,100,1000,8191,8192,8193,20000,512Ki}, artifact cap from {0,1,10,100,5000,8192,10000,30000,1Mi,16Mi}, a stdout and a stderr payload (ASCII lines with CR/LF, multi-byte text, arbitrary binary) of a length drawn around 0, the preview limit, 8192, the cap, 3x8192 or up to 45 kB (200 kB thorough), cut into up to 13 segments per stream (1-7 bytes, up to 200 bytes, exactly 8192, 4-12 kB, the rest) that a real bash emits with `cat` in a seeded stdout/stderr interleaving with pauses of 0/3/8/20 ms; in 1 of 10 scenarios the last bytes of stdout are written 150/600/1400 ms later by a background descendant that outlives the shell and keeps the pipe open (the terminal frame must still come after all output and account for it); exit code from {0,1,3,127}, page sizes from {4..100000}, slow disk 0/5/25/60 ms per artifact-store write. Half the scenarios run the foreground shell tool through the real tool runner configured with those limits: bytes_total, preview (text of a prefix within the limit, as long as the limit allows), truncated flags, artifact present whenever output exceeds the preview and the cap is non-zero, stored bytes = prefix of the payload up to the cap read the moment the tool returned, id = sha256 of the stored bytes = file name, and artifact_fetch page sequences (offset advanced by the reported byte count) must terminate, respect the page size and total, and for single-line valid UTF-8 reproduce the stored text exactly. The other half create a background task through POST /tasks with the limits in its arguments (1 in 4 cancelled 0-60 ms after creation, 1 in 12 unstartable: invalid args, cwd escaping the workspace through `..`, absolute cwd, missing cwd): the task stream opens with the spawn frame at seq 0, running at most once, exactly one terminal status which is the last frame, cancel_requested < cancelled < terminal cancelled status and never a cancelled status without a recorded request, unstartable tasks fail, the status endpoint agrees with the terminal frame; for exited tasks the terminal frame's bytes_total/bytes_stored/truncated equal the payload's, the log file read the moment the terminal frame is visible (and again 30 ms later) equals the payload prefix up to the cap, output frames reference consecutive non-overlapping ranges covering the stored bytes with an inline chunk that is a prefix of its range within the limit, and GET /tasks/{id}/output page sequences reproduce valid UTF-8 output exactly; for cancelled tasks the stored bytes are a prefix. distinct = hash of the scenario; non-trivial = at least one payload byte".into()
     }
     fn assumptions(&self) -> Vec<String> {
         vec![
